@@ -218,13 +218,17 @@ class Parser:
                 if t.type == "UNQUOTED_STRING":
                     # Unquoted strings after SYMBOL can only be values, not attributes
                     if (
-                        ip.parser_state.value_stack[-1] == "SYMBOL"
+                        ip.parser_state.value_stack
+                        and ip.parser_state.value_stack[-1] == "SYMBOL"
                         and t.value.upper() not in SYMBOL_ATTRIBUTES
                     ):
                         t.type = "UNQUOTED_STRING_VALUE"
                 elif t.type == "GRID":
                     # Unquoted 'GRID' coming after NAME is always a value, not a composite type
-                    if ip.parser_state.value_stack[-1] == "NAME":
+                    if (
+                        ip.parser_state.value_stack
+                        and ip.parser_state.value_stack[-1] == "NAME"
+                    ):
                         t.type = "UNQUOTED_STRING_VALUE"
 
             tree = ip.resume_parse()
